@@ -9,7 +9,7 @@ ENV = "export GOFLAGS=-mod=mod GOPROXY=off GOSUMDB=off GOTOOLCHAIN=local"
 CHECKS = {
  "C01": ("online reference-model monitor (lockstep abstract map) over order-family workloads on all 8 key-value containers",
          "Exploration: every Put/Remove/Clear/Get of each generated history runs on the real container and on an abstract map (identity- or comparator-class-keyed); Get of touched + probe keys, Size, Empty after every call, Keys/Values exactly-once and alignment on every call while n<=64; remove-absent compares snapshots. Holds on the executed histories only.",
-         "Trusts the abstract-map model (kvmodel.go) and Go's runtime; keys int/string, values int; comparators natural/reversed/coarsened.",
+         "Trusts the abstract-map model (kvmodel.go) and Go's runtime; keys int, string, struct and (ordered containers) float64 incl. NaN; values int; comparators natural/reversed/coarsened/un-normalised, and the built-in order of the New constructors.",
          "DESIGN.md §4 C01"),
  "C02": ("online monitor: sortedness, iterator walk, extremes and exhaustive Floor/Ceiling probing against a sorted model",
          "Exploration: after every call of C01-style histories on the six comparator-ordered containers, enumeration order, all extreme accessors and Floor/Ceiling for present, absent, between-neighbour and out-of-range probes are compared with the sorted model. Holds on the executed histories and probes only.",
@@ -21,15 +21,15 @@ CHECKS = {
          "DESIGN.md §4 C03"),
  "C04": ("online reference-model monitor (lockstep abstract set) over variadic Add/Remove/Contains histories",
          "Exploration: after every Add/Remove/Clear on HashSet, LinkedHashSet and TreeSet, Contains over the whole alphabet, Contains(list), Size, Empty and Values (each member exactly once) are compared with a model set. Holds on the executed histories only.",
-         "Trusts the model set; element types int and string; TreeSet comparators natural/reversed/coarsened.",
+         "Trusts the model set; element types int, string, struct and (TreeSet) float64 incl. NaN; TreeSet comparators natural/reversed/coarsened/un-normalised and the built-in order of New.",
          "DESIGN.md §4 C04"),
  "C05": ("online reference-model monitor (LIFO/FIFO/bounded FIFO with unique items) incl. a sweep of every ring (capacity, offset, fill) state",
          "Exploration: every Push/Pop/Peek/Enqueue/Dequeue/Clear return value and Values/Size/Empty/Full after every call are compared with a slice model; the ring sweep visits every (capacity<=17, start offset, fill) state and samples larger capacities. Holds on the executed histories only.",
-         "Trusts the slice model; items are unique ints.",
+         "Trusts the slice model; items are unique ints, strings, structs (one larger than a page) or repeating pointers.",
          "DESIGN.md §4 C05"),
  "C06": ("online multiset monitor with minimality check on every Pop/Peek, permutation check of Values/iteration, final drain",
          "Exploration: BinaryHeap and PriorityQueue under interleaved single/bulk Push, Pop, Peek, Clear, FromJSON with five comparators incl. ties between distinguishable elements; every return value is checked for membership and minimality against a multiset. Holds on the executed histories only.",
-         "Trusts the multiset model; elements are {P, unique ID} structs.",
+         "Trusts the multiset model; elements are {P, unique ID} structs, and in one case of five interface values holding slices, floats (NaN, both zeros), pointers, ints, strings or JSON structs.",
          "DESIGN.md §4 C06"),
  "C07": ("counting comparator per call (client-boundary hook) against the stated bounds + structure walkers at every quiescent point",
          "Exploration: every Get/Put/Remove on RedBlackTree, AVLTree, BTree is measured against the stated comparator-call bound, and the exported structure is walked (AVL heights, B-tree node shape/leaf depth/Height(), red-black path ratio/node count/parent links) under amplifying workloads up to n=3000 (quick) / 20000 (thorough). Holds on the executed histories only.",
@@ -41,7 +41,7 @@ CHECKS = {
          "DESIGN.md §4 C08"),
  "C09": ("online reference-model monitor (insertion-order list) incl. Each callback log and ToJSON token order",
          "Exploration: after every Put/Add/Remove/Clear on LinkedHashMap and LinkedHashSet, Keys, Values, iterator walk, Each order and ToJSON order are compared with the model order. Holds on the executed histories only.",
-         "Trusts the slice+map model; int and string keys.",
+         "Trusts the slice+map model; int, string and float keys (every NaN a key of its own).",
          "DESIGN.md §4 C09"),
  "C10": ("online reference-model monitor (pair of inverse maps), every key and value probed in both directions after every call",
          "Exploration: HashBidiMap and TreeBidiMap over 4-6 keys x 4-6 values so all collision kinds occur constantly; Get/GetKey for the whole alphabets, inverse consistency on the implementation's own answers, Size=len(Keys)=len(Values), no duplicate/stale value. Holds on the executed histories only.",
@@ -81,6 +81,10 @@ CHECKS = {
          "DESIGN.md §4 C18"),
 }
 
+PAR = ("; plus a second phase in which a deterministic selection of the same cases is re-run by a -race build, four cases at a time on goroutines "
+       "in each of four processes, every goroutine using only containers it created (race reports with a library frame and monitor verdicts "
+       "there = the library's instances are not independent; DESIGN.md section 9)")
+
 def main():
     implemented = sorted(CHECKS)
     props = [json.loads(l)["id"] for l in open(os.path.join(HERE, "properties.jsonl"))]
@@ -96,7 +100,7 @@ def main():
             "engine": "vmon",
             "level_claimed": {"category": "exploration", "text": text, "design_ref": ref},
             "level_note": note,
-            "technique": tech,
+            "technique": tech + (PAR if pid not in ("C17", "C18") else ""),
         })
     na = [{"property_id": p, "reason": "runtime monitor for this property is not built yet (work in progress); the technique applies"} for p in props if p not in CHECKS]
     m = {
@@ -110,7 +114,7 @@ def main():
             "add_only": True,
         },
         "engines": [{"name": "vmon", "path": "/verif/harness", "serves_properties": implemented,
-                     "kind_free_text": "Go harness: parent/child process runner, online reference-model monitors, structure walkers, counting comparators, fd monitor, race detector + porcupine for C18; coverage counters of the library as evidence"}],
+                     "kind_free_text": "Go harness: parent/child process runner, online reference-model monitors, structure walkers, counting comparators, fd monitor, race detector + porcupine for C18, race detector over concurrent private instances for C01-C16; coverage counters of the library as evidence"}],
         "checks": checks,
         "not_applicable": na,
         "notes": "All checks rebuild the harness against /repo's working tree on every invocation (go build, replace directive). Exit 0 held / 1 violation (VIOLATION line with a replay file) / 3 inconclusive (INCONCLUSIVE line: a floor of observations was not met, a liveness canary was missed, or a watchdog firing did not reproduce). VERIF_SEED selects the PRNG seed; tiers are case counts, never time budgets; an explicit tier argument wins over VERIF_TIER. Known findings: KNOWN_FINDINGS.txt (11 defects of the pinned tree, all repaired by fix: commits in /repo; no open entry). Evidence of detection power: 94 development mutants (mutants/, selftest/) and >100 independently seeded breaking changes (seeded/), see DESIGN.md section 10.",
